@@ -312,6 +312,23 @@ TStuck ==
                 ELSE "NC:operation-stuck"
   /\ UNCHANGED <<nonconf, links, descr, readers, content, pend, upl, expired, made, snap>>
 
+\* The driver's watchdog: a step never became quiescent (a call spins or
+\* blocks on a lock inside the real code) and the run was abandoned.  If a
+\* call is pending whose wait should be over, the hang is that wait.
+THang ==
+  /\ IsEvent("hang")
+  /\ verdict' =
+       IF \E i \in DOMAIN pend :
+            /\ pend[i].op \in {"upload", "fopen"} /\ i \in DOMAIN upl /\ upl[i].phase = "pre"
+            /\ ~UploadMayWait(Writers(pend[i].f), expired)
+       THEN "C16:upload-wait-not-bounded"
+       ELSE IF \E i \in DOMAIN pend :
+            /\ (pend[i].op \in Mutators \/ (pend[i].op = "open" /\ pend[i].trunc))
+            /\ ~WriterMayWait(FrozenNow(readers, upl, pend[i].f))
+       THEN "C16:writer-never-resumed"
+       ELSE "NC:step-did-not-become-quiescent"
+  /\ UNCHANGED <<nonconf, links, descr, readers, content, pend, upl, expired, made, snap>>
+
 \* Is a call that is parked at a quiescent point allowed to be parked?
 BlockReason(p) ==
   IF p.id \notin DOMAIN pend THEN "NC:unknown-pending-operation"
@@ -350,7 +367,7 @@ TQuiesce ==
 
 TNext == TReset \/ TCall \/ TRet \/ TPutBegin \/ TPutHalf \/ TPutEnd \/ TPutClosed
          \/ TPoolData \/ TPoolClose \/ TPoolUseAfterClose
-         \/ TDelayFire \/ TNote \/ TPanic \/ TStuck \/ TQuiesce
+         \/ TDelayFire \/ TNote \/ TPanic \/ TStuck \/ THang \/ TQuiesce
 
 TraceSpec == TInit /\ [][TNext]_tvars
 
